@@ -356,6 +356,100 @@ def _ob_feature(row: int, pa: int, pb: int, en: int, excl: bool, nf: int, si: in
 
 
 # ---------------------------------------------------------------------------
+# 4b. histories and unit placement: (a) the SAME tag object retrieves, the
+#     dimension's unit changes, it retrieves again; (b) rank 2 with a scaled first
+#     dimension (cm -> mm) followed by a set dimension whose tag unit is "none"
+# ---------------------------------------------------------------------------
+def _ob_unit_history(pn: int, en: int, excl: bool, n: int, off: int, second: int) -> bool:
+    """
+    pre: -51 <= pn <= 51 and 0 <= en <= 51 and -LIM <= off <= LIM
+    pre: 0 <= n <= 12 and 0 <= second < 3
+    post: __return__
+    """
+    import nixio
+    from nixio.exceptions import OutOfBounds, IncompatibleDimensions
+    assume(second == PART and en == 0)               # exact positions (keeps the two retrievals cheap)
+    with untraced():
+        nixfake.begin()
+        f = nixio.File(PATH, "w")
+        blk = f.create_block("b", "t")
+    ref = blk.create_data_array("ref", "t", dtype=nixio.DataType.Double, shape=(n,))
+    par = (8, off)                                   # interval 1
+    _mk_dim(ref, "sample", par, "mm")
+    tag = blk.create_tag("tg", "t", [Q(pn, 16)])
+    tag.extent = [Q(en, 16)]
+    tag.units = ["cm"]
+    tag.references.append(ref)
+    rule = nixio.SliceMode.Exclusive if excl else nixio.SliceMode.Inclusive
+
+    def expect(factor):
+        if factor is None:
+            return "incompatible"
+        r = _region_indices("sample", par, pn * factor, (pn + en) * factor, excl and en > 0)
+        if r is None:
+            return "invalid"
+        if r[1] >= n:
+            return "oob"
+        return (r[0], r[1] + 1)
+
+    def observe():
+        try:
+            dv = tag.tagged_data(0, stop_rule=rule)
+        except IncompatibleDimensions:
+            return "incompatible"
+        except OutOfBounds:
+            return "oob"
+        if not dv.valid:
+            return "invalid"
+        return (dv._slices[0].start, dv._slices[0].stop)
+    if observe() != expect(10):
+        return False
+    # the dimension's unit changes between the two retrievals (same tag object)
+    new_unit, factor = _pick([("cm", 1), ("mm", 10), ("mV", None)], second)
+    ref.dimensions[0].unit = new_unit
+    return observe() == expect(factor)
+
+
+def _ob_units_rank2(p0: int, p1: int, e0: int, e1: int, excl: bool, n0: int, n1: int, off: int,
+                    u1: int) -> bool:
+    """
+    pre: -51 <= p0 <= 51 and 0 <= e0 <= 51 and -64 <= p1 <= 64 and 0 <= e1 <= 64
+    pre: -LIM <= off <= LIM and 0 <= n0 <= 12 and 0 <= n1 <= 6 and 0 <= u1 < 2
+    post: __return__
+    """
+    import nixio
+    from nixio.exceptions import OutOfBounds
+    assume(e0 == 0 and (excl, e1 == 0) == PART)      # exact position in the scaled dimension
+    with untraced():
+        nixfake.begin()
+        f = nixio.File(PATH, "w")
+        blk = f.create_block("b", "t")
+    ref = blk.create_data_array("ref", "t", dtype=nixio.DataType.Double, shape=(n0, n1))
+    par0 = (8, off)
+    _mk_dim(ref, "sample", par0, "mm")
+    _mk_dim(ref, "set", 0, None)
+    tag = blk.create_tag("tg", "t", [Q(p0, 16), Q(p1, 16)])
+    tag.extent = [Q(e0, 16), Q(e1, 16)]
+    tag.units = ["cm", _pick(["none", "none"], u1)]
+    tag.references.append(ref)
+    rule = nixio.SliceMode.Exclusive if excl else nixio.SliceMode.Inclusive
+    want = [_region_indices("sample", par0, p0 * 10, (p0 + e0) * 10, excl and e0 > 0),
+            _region_indices("set", 0, p1, p1 + e1, excl and e1 > 0)]      # second dimension: factor 1
+    ns = (n0, n1)
+    try:
+        dv = tag.tagged_data(0, stop_rule=rule)
+    except OutOfBounds:
+        return all(w is not None for w in want) and any(w[1] >= ns[d] for d, w in enumerate(want))
+    if any(w is None for w in want):
+        return not dv.valid
+    if any(w[1] >= ns[d] for d, w in enumerate(want)):
+        return False
+    if not dv.valid:
+        return False
+    return all(dv._slices[d].start == want[d][0] and dv._slices[d].stop == want[d][1] + 1 for d in range(2))
+
+
+# ---------------------------------------------------------------------------
 # 5. IEEE-754: a tag placed exactly on sample i of a dimension with a non-dyadic
 #    sampling interval selects exactly sample i (engine E3, vf.smt_fp): the
 #    region [p, p] is resolved by index_of(p, GreaterOrEqual) and
@@ -527,6 +621,15 @@ OBLIGATIONS = [
        partition_by_tier={"quick": _MT_QUICK, "thorough": _MT_THOROUGH},
        functions=[_M + "tagged_data", _M + "_calc_data_slices_mtag", _T + "BaseTag._calc_data_slices"],
        replay=lambda a: _real("_ob_mtag", a)),
+    Ob("unit_change_between_retrievals", _ob_unit_history, timeout=900,
+       partition=[0, 1, 2], functions=[_T + "Tag.tagged_data", _T + "BaseTag._scale_position"],
+       replay=lambda a: _real("_ob_unit_history", a),
+       outside="one tag object, two retrievals"),
+    Ob("units_in_rank2", _ob_units_rank2, timeout=1500,
+       partition=[(x, z) for x in (False, True) for z in (False, True)],
+       functions=[_T + "BaseTag._calc_data_slices", _T + "BaseTag._scale_position"],
+       replay=lambda a: _real("_ob_units_rank2", a),
+       outside="first dimension sampled (interval 1, cm -> mm), second a set dimension with tag unit 'none'"),
     Ob("tag_on_sample_ieee754", _ob_tag_on_sample_float, timeout=1200, custom=_custom_tag_on_sample, twin=False,
        partition_by_tier={"quick": [(0.1, 0.0, 4096), (0.001, 0.0, 4096), (0.3, 0.7, 4096)],
                           "thorough": [(si, off, 65536) for si, off in ((0.1, 0.0), (0.001, 0.0), (0.3, 0.7),
